@@ -204,7 +204,7 @@ func c06Run(c c06Case) (sig, msg string) {
 }
 
 func TestVF_C06(t *testing.T) {
-	rec := vfRec("C06", "C06-stream", "suite x dynamic sizing on/off x direction x write-size lists (0,1,2,small,16383..16385,40000,70000) x receiver transport segmentation (whole, 1 byte, cycling 1..50, 1208) x read buffer sizes (1,7,100,4096,20000 cycled) x close mode (none, Close, CloseWrite); oracle: writes report full length, concat(reads)=concat(writes), EOF after everything when closed, record sizes from the wire via the reference opener; non-trivial = more than one record, or segmentation != whole, or a read buffer smaller than a record")
+	rec := vfRec("C06", "C06-stream", "suite x dynamic sizing on/off x direction x write-size lists (0,1,2,small,16383..16385,40000,70000; ramps of many small writes followed by a long one; runs of 1..60 empty writes between data) x receiver transport segmentation (whole, 1 byte, cycling 1..50, 1208) x read buffer sizes (1,7,100,4096,20000 cycled) x close mode (none, Close, CloseWrite); oracle: writes report full length, concat(reads)=concat(writes), EOF after everything when closed, record sizes from the wire via the reference opener; non-trivial = more than one record, or segmentation != whole, or a read buffer smaller than a record")
 	sizeGen := rapid.OneOf(rapid.SampledFrom([]int{0, 1, 2, 16383, 16384, 16385, 40000, 70000}), rapid.IntRange(1, 300), rapid.IntRange(1, 20000))
 	vfRapid(t, rec, "cases", vfN(2000, 30000), func(t *rapid.T) {
 		c := c06Case{Suite: rapid.SampledFrom(vfSuites).Draw(t, "suite"), NoDynamic: rapid.Bool().Draw(t, "nodyn"), Dir: rapid.IntRange(0, 1).Draw(t, "dir"),
@@ -226,6 +226,15 @@ func TestVF_C06(t *testing.T) {
 		case 1:
 			c.Writes = []int{rapid.SampledFrom([]int{120000, 137000, 140000, 200000}).Draw(t, "huge")}
 			c.Seg, c.Bufs = 0, []int{20000}
+		case 2:
+			// a run of empty writes between data: they must neither show up in the peer's stream nor
+			// wear out the receiver (which tolerates only a bounded number of records without payload)
+			k := rapid.SampledFrom([]int{1, 2, 15, 16, 17, 18, 33, 60}).Draw(t, "nempty")
+			c.Writes = []int{rapid.IntRange(1, 300).Draw(t, "before")}
+			for i := 0; i < k; i++ {
+				c.Writes = append(c.Writes, 0)
+			}
+			c.Writes = append(c.Writes, rapid.IntRange(1, 5000).Draw(t, "after"))
 		}
 		total := 0
 		for _, n := range c.Writes {
